@@ -145,6 +145,13 @@ impl Compiler {
             Expression::Parenthesized(inner, _) => {
                 self.compile_expression_with_inferred_name(inner, dst, inferred_name)
             }
+            // Type assertions and `!` are static: the function inside is still anonymous
+            Expression::TypeAssertion(ta) => {
+                self.compile_expression_with_inferred_name(&ta.expression, dst, inferred_name)
+            }
+            Expression::NonNull(nn) => {
+                self.compile_expression_with_inferred_name(&nn.expression, dst, inferred_name)
+            }
             // For all other expressions, compile normally
             _ => self.compile_expression(expr, dst),
         }
